@@ -106,6 +106,13 @@ func newModel() *model {
 
 func (m *model) live(svc string) map[string]bool {
 	out := map[string]bool{}
+	if svc == "AX" {
+		// the method only revision 2 of service A has: served by b4 alone
+		if m.conns["b4"] {
+			out["b4"] = true
+		}
+		return out
+	}
 	if svc == "A" && m.local {
 		out["local"] = true
 	}
@@ -172,6 +179,7 @@ type reqSpec struct {
 var methods = []struct{ full, svc string }{
 	{"/vf.rs.A/Get", "A"}, {"/vf.rs.A/Put", "A"}, {"/vf.rs.B/Get", "B"}, {"/vf.rs.C/Get", "C"},
 	{"/vf.rs.D1/Get", "D"}, {"/vf.rs.D2/Get", "D"},
+	{"/vf.rs.A/Extra", "AX"},
 }
 
 // httpSpecs lists the HTTP requests that are requests for a method, at least
@@ -200,6 +208,10 @@ var httpSpecs = map[string][]reqSpec{
 		{Verb: "POST", Path: "/vf.rs.B/Get", Body: `{"a":"k3"}`, Binding: "implicit"},
 		{Verb: "GET", Path: "/rs/b2/k4/5", Binding: "var"},
 		{Verb: "GET", Path: "/cfg/b/k5", Binding: "config"},
+	},
+	"/vf.rs.A/Extra": {
+		{Verb: "GET", Path: "/rs/extra/k1", Binding: "var", Want: []string{"a=k1"}},
+		{Verb: "POST", Path: "/vf.rs.A/Extra", Body: `{"a":"k2"}`, Binding: "implicit"},
 	},
 	"/vf.rs.D1/Get": {
 		{Verb: "GET", Path: "/rs/d1/k1", Binding: "var"},
